@@ -1466,9 +1466,24 @@ func (fr *Frame) backEdge(p, h *ssa.BasicBlock, st *State, cond string) {
 	if its := fr.loopIterations(h); len(its) > 0 && fr.headerState[h.Index] != nil {
 		s4 := st.clone()
 		s4.pc = and(st.pc, cond)
-		env := fr.headerEnv(h, fr.headerPhis[h.Index])
+		henv := fr.headerEnv(h, fr.headerPhis[h.Index])
+		// at the end of the iteration the loop-carried variables hold the values flowing along this back edge
+		endPhis := map[*ssa.Phi]Val{}
+		for i, q := range h.Preds {
+			if q != p {
+				continue
+			}
+			for _, in := range h.Instrs {
+				phi, ok := in.(*ssa.Phi)
+				if !ok {
+					break
+				}
+				endPhis[phi] = fr.val(s4, phi.Edges[i])
+			}
+		}
+		env := fr.headerEnv(h, endPhis)
 		for _, cl := range its {
-			t, err := u.specBool(cl.Expr, &specCtx{fr: fr, cur: s4, old: u.entry, env: env, header: fr.headerState[h.Index], local: fr.localAt(h, findLoops(fr.fn)[h.Index]), iter: fr.loopIter(h)})
+			t, err := u.specBool(cl.Expr, &specCtx{fr: fr, cur: s4, old: u.entry, env: env, henv: henv, header: fr.headerState[h.Index], local: fr.localAt(h, findLoops(fr.fn)[h.Index]), iter: fr.loopIter(h)})
 			if err != nil {
 				u.failed = fmt.Sprintf("%s:%d: %v", cl.File, cl.Line, err)
 				return
